@@ -101,6 +101,8 @@ def gen_cases(g, n):
             k = r.choice([Fraction(2), Fraction(3), Fraction(1, 2), Fraction(-1), Fraction(0)])
             a = dict(a, data=pos, dtype=r.choice(["f8", "f4"]))
             args = [a]
+            # the exponent as a Python number, a numpy scalar, a 0-d ndarray or a full-size ndarray (uniform)
+            kw = {"kform": r.choice(["py", "py", "npscalar", "nd0", "ndfull"])}
         elif cls == "D1":
             name, args, klass = r.choice(CAT_D1), [a], "D"
         else:
@@ -126,8 +128,8 @@ def run_one(osy, case):
         o, rw = mk(osy, a)
         objs.append(o)
         raws.append(rw)
-    kw = dict(case["kw"])
-    kw_raw = dict(case["kw"])
+    kw = {k_: v_ for k_, v_ in case["kw"].items() if k_ != "kform"}
+    kw_raw = dict(kw)
     out_obj = None
     if kw.get("out"):
         first = next(o for o in objs if isinstance(o, osy.Array))
@@ -137,6 +139,15 @@ def run_one(osy, case):
     seq = name in CAT_BSEQ
     if name == "power":
         kk = float(case["k"]) if case["k"].denominator != 1 else int(case["k"])
+        kform = case["kw"].get("kform", "py")
+        if kk == -1:
+            kk = -1.0  # numpy refuses negative integer powers of integers; the base is float here anyway
+        if kform == "npscalar":
+            kk = np.float64(kk) if isinstance(kk, float) else np.int64(kk)
+        elif kform == "nd0":
+            kk = np.array(kk)
+        elif kform == "ndfull":
+            kk = np.full(np.shape(raws[0]), kk)
         call_args, raw_args = [objs[0], kk], [raws[0], kk]
     elif seq:
         call_args, raw_args = [objs], [raws]
@@ -205,14 +216,28 @@ def run(ctx):
     for i, ans in zip(idx, answers):
         c, r = cases[i], results[i]
         out.compared += 1
-        key = f"{c['cls']}:{c['name']}:{c['mode']}:{'kw' if c['kw'] else 'nokw'}"
+        ckw = {k_: v_ for k_, v_ in c["kw"].items() if k_ != "kform"}
+        key = f"{c['cls']}:{c['name']}:{c['mode']}:{'kw' if ckw else c['kw'].get('kform', 'nokw')}"
         dist[key] = dist.get(key, 0) + 1
-        if c["mode"] in ("compatible", "incompatible", "plain") or c["kw"] or c["cls"] in ("C", "D"):
+        if c["mode"] in ("compatible", "incompatible", "plain") or ckw or c["cls"] in ("C", "D"):
             out.nontrivial.add(case_hash(ser(c)))
         if len(out.samples) < 4:
             out.samples.append({"call": ser(c), "model": ans.get("model"), "spec": ans.get("spec"),
                                 "impl_unit": None if r["impl_err"] else str(getattr(r["impl"], "unit", None))})
         model, spec = ans.get("model"), ans.get("spec")
+        if r["impl_err"] is None and hasattr(r["impl"], "unit"):
+            try:
+                ucat.plain_unit(osy, r["impl"].unit)
+            except ucat.MalformedUnit as e:
+                out.violations.append({"what": f"the result carries a malformed unit ({e}): converting, adding or printing it raises TypeError",
+                                       "case": ser(c), "call_site": "Array._wrap_numpy", "input_class": "malformed-unit"})
+                continue
+        if c["kw"].get("kform") == "ndfull" and not all(Fraction(x) == 0 for x in ucat.unit_fd(osy, r["self_unit"])[1]):
+            # pint refuses a non-scalar exponent on a dimensioned base (its documented behaviour, modelled here): the call
+            # raises, which the property allows ("... or the call raises"); a result, if any, must still carry unit**k (Spec)
+            if r["impl_err"] is not None:
+                continue
+            model = spec
         # ---- tie (b): impl vs model (units as coded)
         if r["impl_err"] is not None:
             d = f"impl raised {r['impl_err']}, model returns {model}"
@@ -236,7 +261,7 @@ def run(ctx):
             if r["impl_err"] is not None:
                 if spec != "refuse":
                     viol = (f"call raises {r['impl_err']} although the dimensionally correct result exists ({spec})",
-                            "kwargs" if c["kw"] else "raises")
+                            "kwargs" if ckw else "raises")
             elif spec == "refuse":
                 viol = (f"operands in different units combined as if they shared one: result unit {r['impl'].unit}", "np_binary_mixed_units")
             elif c["cls"] == "D" and mixed and len(c["args"]) == 2 and c["name"] not in ("logical_and", "logical_or", "logical_xor"):
